@@ -283,7 +283,7 @@ def replay_history(rng, tier, rtcp=False, n_ssrc=None, steps=None, common_roc=No
     start = {s: rng.choice([0, 1, 100, 32767, 32768, 65000, 65535]) for s in ssrcs}
     steps = steps or (80 if tier == "quick" else 600)
     delivered = set()
-    for _ in range(steps):
+    for step_no in range(steps):
         s = rng.choice(ssrcs)
         if rekey and not wildcard and rng.random() < rekey and all(pool[x] for x in ssrcs):
             L += [f"update 1 {ids}", f"update 2 {ids}", "# U"]
@@ -291,10 +291,10 @@ def replay_history(rng, tier, rtcp=False, n_ssrc=None, steps=None, common_roc=No
                 pool[x] = [e for e in pool[x] if e[0] not in delivered]
             continue
         if rtcp:
-            if not pool[s] or rng.random() < 0.45:
-                if pool[s] and rng.random() < 0.08:
+            if not pool[s] or rng.random() < 0.45 or step_no == 15:
+                if pool[s] and (rng.random() < 0.08 or step_no == 15):      # every history has at least one far jump (step 15)
                     # far-future jump of the sender's counter
-                    j = hi[s] + rng.choice([200, 1000, 1 << 20])
+                    j = hi[s] + rng.choice([200, 1000, 1 << 20, 1 << 27, (1 << 30) + 9])      # the index is a 31-bit number: every bit of it counts
                     if j < 0x7ffffff0:
                         L.append(f"poke_rtcp 1 0 {H(s)} {H(j)}"); hi[s] = j
                 rp = rtcp_packet(s, rand_key(rng, 8))
